@@ -110,7 +110,8 @@ def run_tlc(module, cfg, *, workers=1, seed=0, timeout=1800, coverage=False, sim
     for line in p.stdout.splitlines():
         if line.startswith('"') and line.endswith('"'):
             try:
-                res.records.append(json.loads(json.loads(line)))
+                # canonical key order: TLC's ToJson emits record fields in no particular order
+                res.records.append(json.loads(json.dumps(json.loads(json.loads(line)), sort_keys=True)))
                 continue
             except Exception:
                 pass
